@@ -110,7 +110,9 @@ def history(mon, rng, length, long=False):
             Y = fresh(len(order))
             ops.append(("add", form, order))
             try:
-                model.add_sample(idx_for_model, Y.copy())
+                handed = Y.copy()
+                model.add_sample(idx_for_model, handed)
+                handed[...] = np.nan  # the caller re-uses its buffer: the model must have taken its own copy
             except Exception as e:
                 mon.violation(f"empirical:add-crash:{type(e).__name__}", f"{e!r} on {form} {order}", {"ops": ops[-10:]})
                 continue
